@@ -90,6 +90,12 @@ impl Exp<'_> {
                 s.name(),
                 nows(if *msb { MSB0_TARGET } else { LSB0_TARGET })
             ),
+            BitVecOf(i, msb) => format!(
+                "{}<{},{}>",
+                nows(self.d.bits_path.as_deref().unwrap_or("")),
+                self.ty(&Param(*i), false),
+                nows(if *msb { MSB0_TARGET } else { LSB0_TARGET })
+            ),
             Alias(_, x) => self.ty(x, top),
             Slice(x) => format!("{alloc}::vec::Vec<{}>", self.ty(x, false)),
             StrSlice => format!("{alloc}::string::String"),
